@@ -74,6 +74,33 @@ func ProfileFor(prop string) Profile {
 		p.WAddRemove = 0
 		p.WMidSet = 85
 		p.PairWrites = 10
+	case "pardrop", "pardropfaults":
+		// outer nodes n2..n4 of height 1 read only through the right-hand side of a bind whose
+		// lhs-change node (n5) sits at the same height: writing n0 and the selector n1 before one
+		// pass puts a stale outer node and the bind that drops it into one height block, in either
+		// queue order. What the two stabilizers do with that block is where they can differ.
+		p.Prefix = []Op{
+			{K: "NewVar", V: 1}, {K: "NewVar", V: 0},
+			{K: "NewMap", F1: Fn1{1, 2}, A: 0}, {K: "NewMap", F1: Fn1{2, 1}, A: 0}, {K: "NewCutoff", Cut: "CEq", A: 0},
+			{K: "NewBind", A: 1, Cases: []*Texp{
+				{K: "TMap", F1: Fn1{1, 1}, E1: &Texp{K: "TOuter", N: 2}},
+				{K: "TMap2", F2: Fn2{1, 2, 0}, E1: &Texp{K: "TOuter", N: 3}, E2: &Texp{K: "TOuter", N: 2}},
+				{K: "TRet", Z: 5},
+				{K: "TOuter", N: 4},
+			}},
+			{K: "Observe", A: 6}, {K: "Stabilize"},
+		}
+		p.Ops = 30
+		p.WNew = 5
+		p.WBind = 10
+		p.WObserve = 3
+		p.WUnobserve = 1
+		p.WSet = 50
+		p.WStabilize = 38
+		p.WAddRemove = 0
+		if prop == "pardropfaults" {
+			p.WFaultPass = 45
+		}
 	case "alwaysfaults":
 		// every history starts with an always node feeding a function node that is observed and
 		// has been computed once (so that later passes recompute it directly after the always node)
@@ -91,6 +118,36 @@ func ProfileFor(prop string) Profile {
 		p.WBind = 40
 		p.WSet = 30
 		p.Depth = 2
+	case "chain":
+		// an outer chain of single-input maps n0 -> n2 -> n3 -> n4 rising above the lhs-change node
+		// (n5) of a bind whose right-hand sides are single-input nodes hanging off the chain: direct
+		// recompute runs up such a chain ahead of the recompute heap
+		p.Prefix = []Op{
+			{K: "NewVar", V: 1}, {K: "NewVar", V: 0},
+			{K: "NewMap", F1: Fn1{1, 1}, A: 0}, {K: "NewMap", F1: Fn1{1, 2}, A: 2}, {K: "NewMap", F1: Fn1{2, 1}, A: 3},
+			{K: "NewBind", A: 1, Cases: []*Texp{
+				{K: "TMap", F1: Fn1{2, 1}, E1: &Texp{K: "TOuter", N: 3}},
+				{K: "TRet", Z: 5},
+				{K: "TMap", F1: Fn1{1, 3}, E1: &Texp{K: "TOuter", N: 4}},
+				{K: "TMap", F1: Fn1{3, 1}, E1: &Texp{K: "TMap", F1: Fn1{1, 1}, E1: &Texp{K: "TOuter", N: 2}}},
+			}},
+			{K: "Observe", A: 6}, {K: "Stabilize"},
+		}
+		p.Ops = 30
+		p.WNew = 6
+		p.WBind = 12
+		p.WObserve = 3
+		p.WUnobserve = 1
+		p.WSet = 50
+		p.WStabilize = 36
+		p.WAddRemove = 0
+	case "deadobs":
+		// like inner, and a share of the Observe operations goes to nodes of discarded generations
+		p.Inner = 30
+		p.DeadObs = 35
+		p.WBind = 35
+		p.WSet = 32
+		p.WObserve = 18
 	case "inner":
 		p.Inner = 50
 		p.WBind = 35
